@@ -133,6 +133,48 @@ def r2_order_coverage(r, facts):
     r.floor(40, 'tuple/array obligations')
 
 
+def counter_local(f, init_pred, eb=None):
+    """the `remaining` counter of a distribution loop, found structurally (whatever it is called): a local with
+    several definitions, one of which satisfies init_pred(expr) and all others are `itself - x` (Sub, saturating_sub)
+    or a constant 0"""
+    eb = eb or ExprBuilder(f, multi='leaf')
+    for l in range(len(f.locals)):
+        ds = [d for d in f.defs.get(l, []) if not f.blocks[d[0][0]]['cleanup']]
+        if len(ds) < 2 or f.partial_writes(l):
+            continue
+        inits, decs, other = 0, 0, 0
+        for d in ds:
+            e = eb.definition(d, 0, ())
+            while e[0] == 'cast' or (e[0] == 'proj' and e[2] == ('.0',)):
+                e = e[4] if e[0] == 'cast' else e[1]
+            if init_pred(e):
+                inits += 1
+            elif e[0] == 'bin' and e[1].startswith('Sub') and e[2][0] == 'local' and e[2][1] == l:
+                decs += 1
+            elif e[0] == 'call' and e[1].endswith('saturating_sub') and e[2] and e[2][0][0] == 'local' and e[2][0][1] == l:
+                decs += 1
+            elif e[0] == 'const' and e[1] == 0:
+                decs += 1
+            elif e[0] == 'proj' and '@Some' in e[2] and e[1][0] == 'call' and e[1][1].endswith('checked_sub') and e[1][2][0][0] == 'local' and e[1][2][0][1] == l:
+                decs += 1
+            else:
+                other += 1
+        if inits >= 1 and decs >= 1 and other == 0:
+            return l
+    return None
+
+
+def _relation(op, a_is_r, taken):
+    """relation between C (element capacity) and R (remaining) implied by taking edge `taken` of `a op b`, where
+    a_is_r says whether the left operand is R: one of 'C<R', 'C<=R', 'C>R', 'C>=R'"""
+    # rewrite as C ? R
+    if a_is_r:
+        op = {'Lt': 'Gt', 'Le': 'Ge', 'Gt': 'Lt', 'Ge': 'Le'}[op]
+    if not taken:
+        op = {'Lt': 'Ge', 'Le': 'Gt', 'Gt': 'Le', 'Ge': 'Lt'}[op]
+    return {'Lt': 'C<R', 'Le': 'C<=R', 'Gt': 'C>R', 'Ge': 'C>=R'}[op]
+
+
 def _check_set_init(r, f, n):
     eb = ExprBuilder(f, multi='leaf')
     name = 'set_init/tuple%d' % n if n else 'set_init/array'
@@ -146,47 +188,57 @@ def _check_set_init(r, f, n):
     else:
         r.inst('%s: loop body' % name, f.where())
         r.require(len(parts) == 1 and len(inits) == 2, name + '/shape', 'array set_init loop does not have one parts_mut and two set_init calls', f.where())
-    rets = f.returns()
+    # the remaining-count local: initialised from the parameter n (argument 2), decreased by element lengths
+    R = counter_local(f, lambda e: e[0] == 'arg' and e[1] == 2, eb)
+    if not r.require(R is not None, name + '/counter', 'the count of bytes still to distribute (initialised from n, decreased per element) was not found', f.where()):
+        return
+
+    def is_r(e):
+        while e[0] == 'cast':
+            e = e[4]
+        return e[0] == 'local' and e[1] == R
     for pl, pt in parts:
-        # the switch following parts_mut compares len < left
+        # the capacity test of this element: the nearest comparison behind parts_mut that involves the counter
         sw = None
         for b, blk in enumerate(f.blocks):
             if blk['term']['k'] == 'switch' and not blk['cleanup'] and f.dominates(pl, f.term_loc(b)):
                 e = eb.operand(blk['term']['discr'])
-                if e[0] == 'bin' and e[1] in ('Lt', 'Le', 'Gt', 'Ge'):
+                if e[0] == 'bin' and e[1] in ('Lt', 'Le', 'Gt', 'Ge') and (is_r(e[2]) != is_r(e[3])):
                     if sw is None or len(f.dom.get(b, ())) < len(f.dom.get(sw[0], ())):
-                        if any(x[0] == 'local' and x[2] == 'left' for x in subexprs(e)) or True:
-                            sw = (b, e)
+                        sw = (b, e)
         if not r.require(sw is not None, name + '/test', 'no comparison of the element capacity with the remaining count', f.where(pl)):
             continue
         b, e = sw
-        ok_cmp = e[1] == 'Lt' and _is_left(e[3]) and not _is_left(e[2])
-        ok_cmp = ok_cmp or (e[1] == 'Gt' and _is_left(e[2]) and not _is_left(e[3]))
-        r.require(ok_cmp, name + '/cmp', 'element test is %s, expected `len < left` (with `<=` an exactly filled buffer is followed by an out-of-range write / unreachable!)' % (e,), f.where(f.term_loc(b)))
         vals = {int(v): tg for v, tg in f.term(b)['targets']}
         t_true, t_false = vals.get(1, f.term(b)['otherwise']), vals.get(0)
-        # true edge: set_init(len) then left -= len, continues; false edge: set_init(left) then return
-        mine = [(l, t) for l, t in inits if f.edge_dominates((b, t_true), l) or f.edge_dominates((b, t_false), l)]
-        full = [(l, t) for l, t in mine if f.edge_dominates((b, t_true), l) and not any(f.edge_dominates((b2, x), l) for b2 in [] for x in [])]
-        full = [x for x in full if _closest(f, x[0], b)]
-        part = [(l, t) for l, t in mine if f.edge_dominates((b, t_false), l) and _closest(f, l, b)]
+        rel_true, rel_false = _relation(e[1], is_r(e[2]), True), _relation(e[1], is_r(e[2]), False)
+        # the edge on which the element is filled completely must imply capacity < remaining (strictly: with <= an
+        # exactly filled last buffer falls off the end); the other edge (remaining <= capacity) finishes
+        edges = {rel_true: (b, t_true), rel_false: (b, t_false)}
+        full_e, part_e = edges.get('C<R'), edges.get('C>=R')
+        r.require(full_e is not None and part_e is not None, name + '/cmp',
+                  'element test is %s (edges imply %s / %s), expected `len < left` against `left <= len` (with `<=` on the full arm an exactly filled buffer is followed by an out-of-range write / unreachable!)' % (e, rel_true, rel_false), f.where(f.term_loc(b)))
+        if full_e is None or part_e is None:
+            continue
+        full = [(l, t) for l, t in inits if f.edge_dominates(full_e, l) and _closest(f, l, b)]
+        part = [(l, t) for l, t in inits if f.edge_dominates(part_e, l) and _closest(f, l, b)]
         if r.require(len(full) >= 1 and len(part) >= 1, name + '/arms', 'full/partial set_init arms not found after the capacity test', f.where(f.term_loc(b))):
             fl, ft = full[0]
             pl2, pt2 = part[0]
             a_full = eb.operand(ft['args'][1])
             a_part = eb.operand(pt2['args'][1])
-            r.require(not _is_left(a_full), name + '/full-arg', 'the fully-initialised arm passes `left` instead of the element length', f.where(fl))
-            r.require(_is_left(a_part), name + '/part-arg', 'the partially-initialised arm does not pass the remaining count: %s' % (a_part,), f.where(pl2))
+            r.require(not is_r(a_full), name + '/full-arg', 'the fully-initialised arm passes the remaining count instead of the element length', f.where(fl))
+            r.require(is_r(a_part), name + '/part-arg', 'the partially-initialised arm does not pass the remaining count: %s' % (a_part,), f.where(pl2))
             hit = f.forward_paths_hit([Loc(pt2['target'], 0)], [l for l, _ in parts + inits])
             r.require(hit is None, name + '/continues', 'after the partial arm further buffers are touched (must return)', f.where(pl2))
-            # left -= len on the full arm before the next element
+            # remaining -= len on the full arm before the next element
             dec = False
-            for l, s in f.assigns():
-                if f.edge_dominates((b, t_true), l) and not s['lhs']['p'] and f.local_name(s['lhs']['l']) == 'left':
-                    ee = eb.rvalue(s['rv'])
+            for l, s_ in f.assigns():
+                if f.edge_dominates(full_e, l) and not s_['lhs']['p'] and s_['lhs']['l'] == R:
+                    ee = eb.rvalue(s_['rv'])
                     if ee[0] == 'proj' and ee[2] == ('.0',):
                         ee = ee[1]
-                    if ee[0] == 'bin' and ee[1].startswith('Sub') and _is_left(ee[2]):
+                    if ee[0] == 'bin' and ee[1].startswith('Sub') and is_r(ee[2]):
                         dec = True
             r.require(dec, name + '/decrement', 'the remaining count is not decreased by the element length on the full arm', f.where(fl))
 
